@@ -5,6 +5,11 @@ V = "/verif"
 props = [json.loads(l) for l in open(V + "/properties.jsonl")]
 
 CLAIMED = {
+ "C08": dict(
+    text="ORDER/WHO/GATED-EFFECT rules on every CFG path and over the resize2fs call graph: the EXT2_ERROR_FS store, dirty-mark and flush come in that order in resize_fs and dominate every write-capable call and the handle duplication; "
+         "among all functions reachable from resize_fs only resize_fs clears the flag, after every phase, and only the final close follows; ext2fs_flush2 writes the primary superblock last with a flush before and after; "
+         "in main no refusal/no-op path between open and exit contains a write request, dirty-mark or superblock store. Decides the crash-marker and refused-request clauses for all crash points and requests; not relocation arithmetic.",
+    ref="§4 C08", technique="static analysis: dominance / must-pass-through over clang CFGs, who-may-store over the call graph, gated-effect reachability"),
  "C12": dict(
     text="ORDER/GUARD/TABLE rules on every CFG path: each device-mutating slot of the I/O-manager vtable (computed from the unix manager's raw writes) is defined by the undo manager, "
          "saves old bytes before forwarding and never forwards after a failed save; first-write-wins bookkeeping in undo_write_tdb; FINISHED marker stored only by undo_close before the flushed final index write; "
